@@ -35,6 +35,8 @@ pub struct DriveParams {
     pub reuse_ids: bool,
     /// non-urgent executor: time may pass although somebody is runnable
     pub lazy: bool,
+    /// finished futures are kept and dropped later by a separate environment action
+    pub hold: bool,
 }
 impl Default for DriveParams {
     fn default() -> Self {
@@ -55,6 +57,7 @@ impl Default for DriveParams {
             spurious_pct: 3,
             reuse_ids: false,
             lazy: false,
+            hold: false,
         }
     }
 }
@@ -87,7 +90,14 @@ pub trait Adapter {
 
 pub async fn drive_random(sim: &mut Sim, ad: &mut dyn Adapter, rng: &mut Rng, p: &DriveParams) {
     let mut next_id = 1usize;
+    sim.hold_finished = p.hold;
     for _ in 0..p.steps {
+        if p.hold && !sim.zombies.is_empty() && rng.pct(12) {
+            let zs: Vec<usize> = sim.zombies.keys().cloned().collect();
+            let c = *rng.pick(&zs);
+            sim.reap(c).await;
+            continue;
+        }
         let flagged = sim.needs_poll();
         let live = sim.live();
         let pend = sim.w.lock().unwrap().pending_gates();
@@ -206,9 +216,22 @@ pub async fn drive_schedule(sim: &mut Sim, ad: &mut dyn Adapter, evs: &[Value], 
                     sim.complete(i, out.clone()).await;
                 }
             }
+            "reap" => {
+                let c = geti(ev, "c").unwrap_or(0) as usize;
+                if !sim.reap(c).await {
+                    skipped += 1;
+                }
+            }
+            "hold" => {
+                sim.hold_finished = true;
+            }
             "dropall" => {
                 for c in sim.live() {
                     sim.drop_caller(c).await;
+                }
+                let zs: Vec<usize> = sim.zombies.keys().cloned().collect();
+                for c in zs {
+                    sim.reap(c).await;
                 }
             }
             "advance" => {
